@@ -655,6 +655,7 @@ func (s *Syncer) acceptLoop(ctx context.Context) error {
 		go func() {
 			done, err := s.tg.Add()
 			if err != nil {
+				conn.Close() // shutting down: don't leave the dialer waiting
 				return
 			}
 			defer done()
